@@ -74,6 +74,11 @@ DESC["C10"] = dict(technique="TLC model checking of spec/Concurrent.tla (all sch
    text="Concurrent.tla models each mutator as an unlocked wrapper guard followed by an atomic critical section; TLC enumerates every schedule of 2 goroutines x 1 call (all 8 mutators, lengths 0-3, LIFO/FIFO, capacity none/2; exhaustive), 2x2 and 3x1 (sampled in quick, exhaustive in thorough), proves each outcome linearisable, and emits (program, schedule, predicted outcome). The harness parks real goroutines before each call and before mutex.Lock(), so each schedule runs deterministically; LinTrace.tla searches for a sequential explanation of every recorded history; the driver additionally checks per segment that content changes only between lock.held and lock.release and that the lock bookkeeping is written under the lock. Free-running 6-goroutine rounds in a -race build are judged the same way; race reports are classified by RaceClass.tla.",
    note="The 'no data race' clause rests on the Go race detector over spec-derived workloads (timing dependent: it can add findings, its silence proves nothing). One open known finding: unlocked pre-check reads in the wrappers and in lock() race with writes inside critical sections (KNOWN-FINDING); any other report, any non-linearisable history, panic, deadlock, capacity overflow or configuration-as-element is a VIOLATION.")
 
+DESC["C11"] = dict(technique="reflection sweep over every non-mutating method validated by spec/Frame.tla (QueryRule) + parallel query answers recorded from 12-16 goroutines in a -race build and validated answer by answer by spec/Check_Queries.tla (Render, Lookup, TraverseSpec, UnmarshalSpec) + race reports classified by spec/RaceClass.tla (MODE=queries: none allowed)",
+   design_ref="DESIGN.md section 4 C11",
+   text="Purity: each declared query (Frame.tla lists the mutators; everything else the reflection enumeration finds is a query candidate) is called on 17 receiver kinds, writable and read-only, with a deep VerifDump snapshot before and after, a repeat call, and a scribble over the returned Unmarshal container. Concurrency: on random shared structures with mutex-enabled nodes (half of them read-only) 12-16 goroutines issue 26 queries in random order three times; the isolated answers and every goroutine's answers must equal the answers the TLA+ specification computes for that tree; the run is a -race build and no race report is accepted.",
+   note="The absence-of-race clause rests on the Go race detector (timing dependent). Less() is checked for purity, not for its ordering.")
+
 def main():
     commits = subprocess.run(["git", "-C", "/repo", "log", "--format=%h %s", "--grep=^verif:"],
                              stdout=subprocess.PIPE, text=True).stdout.strip().splitlines()
